@@ -115,6 +115,16 @@ fn grid_lib() -> Vec<LibCase> {
             };
             v.push(LibCase { spec: spec.clone(), extract });
         }
+        // one directory spelled in several letter cases (game archives do): on a case-sensitive file system
+        // --preserve-paths has to create each spelling
+        let mut mixed = spec.clone();
+        for (f, dir) in mixed.files.iter_mut().zip(["Interface\\Icons", "INTERFACE\\ICONS", "interface/icons", "Interface\\ICONS", "World", "WORLD"]) {
+            let leaf = f.name.rsplit(['\\', '/']).next().unwrap().to_string();
+            f.name = format!("{dir}\\{leaf}");
+        }
+        for threads in [None, Some(3)] {
+            v.push(LibCase { spec: mixed.clone(), extract: ExtractOpts { threads, preserve: true, explicit: None, skip_errors: false, prefill: 0 } });
+        }
     }
     v
 }
@@ -334,7 +344,7 @@ fn main() {
             crate::inc(&check, &format!("template {k}: the library rejected none of the damaged inputs (vacuous 'must exit non-zero' clause)"));
         }
     }
-    for must in ["list:name-longer-than-80", "extract:all", "extract:named", "extract:missing-noskip", "extract:missing-skip", "extract:preserve-dirs"] {
+    for must in ["list:name-longer-than-80", "extract:all", "extract:named", "extract:missing-noskip", "extract:missing-skip", "extract:preserve-dirs", "extract:preserve-dirs-in-two-letter-cases"] {
         if check.counter(must) == 0 {
             crate::inc(&check, &format!("no extraction case of class {must}"));
         }
